@@ -172,7 +172,8 @@ func (x *Exec) doCallVals(p *Path, site ssa.Instruction, cc *ssa.CallCommon, fnv
 	}
 	if cc.IsInvoke() {
 		if x.isNoopInvoke(cc) {
-			k(p, resultVal(rtuple, freshResults("noop")))
+			// a logger may format its arguments: String() methods of oxy types passed to it run here
+			x.stringers(p, args, func(p *Path) { k(p, resultVal(rtuple, freshResults("noop"))) }, pk)
 			return
 		}
 		if ic := x.ifaceContract(cc); ic != nil {
@@ -1446,4 +1447,51 @@ func mentionsEvents(e Expr) bool {
 		return mentionsEvents(e.Body)
 	}
 	return false
+}
+
+// stringers runs the String() methods (defined in oxy) of the values passed in a variadic ...any argument list.
+func (x *Exec) stringers(p *Path, args []Val, then func(p *Path), pk panK) {
+	var todo []Val
+	for _, a := range args {
+		if a.K == KSlice {
+			todo = append(todo, p.elemStores[a.S]...)
+		}
+	}
+	var run func(p *Path, i int)
+	run = func(p *Path, i int) {
+		for ; i < len(todo); i++ {
+			v := todo[i]
+			ms := x.e.prog.MethodSets.MethodSet(v.DynT)
+			sel := ms.Lookup(nil, "String")
+			if sel == nil {
+				continue
+			}
+			f := x.e.prog.MethodValue(sel)
+			if f == nil || f.Pkg == nil || !strings.HasPrefix(f.Pkg.Pkg.Path(), oxyMod) || len(f.Blocks) == 0 || x.onStack(p, f) {
+				continue
+			}
+			if len(p.frames) >= 4 {
+				continue
+			}
+			recv := Val{K: KScalar, T: v.DynT, S: v.S, Label: v.Label}
+			if kindOf(v.DynT) != KScalar {
+				continue
+			}
+			x.e.note("loggers may format their arguments: String() of " + v.DynT.String() + " is executed at log calls")
+			next := i + 1
+			rt := f.Signature.Results()
+			if fc := x.e.contractOf(f); fc != nil {
+				var rtypes []types.Type
+				for j := 0; j < rt.Len(); j++ {
+					rtypes = append(rtypes, rt.At(j).Type())
+				}
+				x.applyContract(p, nil, fc, f, "String", []Val{recv}, rtypes, rt, func(p *Path, _ Val) { run(p, next) }, pk)
+				return
+			}
+			x.inline(p, f, Val{}, []Val{recv}, "String", rt, func(p *Path, _ Val) { run(p, next) }, pk)
+			return
+		}
+		then(p)
+	}
+	run(p, 0)
 }
